@@ -650,8 +650,8 @@ package uhppote
 //@   ensures once:   !(serialNumber == 0) ==> sent.n == N0 + 1
 //@   ensures wire:   !(serialNumber == 0) ==> wire.header(B, 0x20, serialNumber) && wire.zero(B, 8, 64)
 //@   ensures route:  !(serialNumber == 0) ==> routed(u, serialNumber, N0)
-//@   ensures accept: err == nil ==> accepted(N0, 0x20, serialNumber) && R[13] <= 1 && R[28] <= 1 && R[29] <= 1 && R[30] <= 1 && R[31] <= 1 && R[32] <= 1 && R[33] <= 1 && R[34] <= 1 && R[35] <= 1 && wire.rdtOK(R, 20)
-//@   ensures result: err == nil ==> res != nil && res.SerialNumber == serialNumber && res.SystemError == R[36] && res.SequenceId == wire.u32(R, 40) && res.SpecialInfo == R[48] && res.RelayState == R[49] && res.InputState == R[50] && (res.DoorState[1] <==> R[28] == 1) && (res.DoorState[2] <==> R[29] == 1) && (res.DoorState[3] <==> R[30] == 1) && (res.DoorState[4] <==> R[31] == 1) && (res.DoorButton[1] <==> R[32] == 1) && (res.DoorButton[2] <==> R[33] == 1) && (res.DoorButton[3] <==> R[34] == 1) && (res.DoorButton[4] <==> R[35] == 1) && (wire.u32(R, 8) == 0 ==> res.Event.Index == 0 && res.Event.Type == 0 && res.Event.CardNumber == 0 && res.Event.Timestamp.abs == 0) && (wire.u32(R, 8) != 0 ==> res.Event.Index == wire.u32(R, 8) && res.Event.Type == R[12] && (res.Event.Granted <==> R[13] == 1) && res.Event.Door == R[14] && res.Event.Direction == R[15] && res.Event.CardNumber == wire.u32(R, 16) && res.Event.Reason == R[27] && wire.rdatetime(R, 20, res.Event.Timestamp.abs, res.Event.Timestamp.ns, res.Event.Timestamp.loc))
+//@   ensures accept: err == nil ==> accepted(N0, 0x20, serialNumber) && R[13] <= 1 && R[28] <= 1 && R[29] <= 1 && R[30] <= 1 && R[31] <= 1 && R[32] <= 1 && R[33] <= 1 && R[34] <= 1 && R[35] <= 1 && wire.rdtOK(R, 20) && (wire.rsysdateOK(R, 51) ==> wire.bcdok(R, 51, 3) && time.validDate(wire.rsysY(R, 51), bcd.val2(R[52]), bcd.val2(R[53]))) && wire.bcdok(R, 37, 3) && time.validClock(bcd.val2(R[37]), bcd.val2(R[38]), bcd.val2(R[39]))
+//@   ensures result: err == nil ==> res != nil && res.SerialNumber == serialNumber && res.SystemError == R[36] && res.SequenceId == wire.u32(R, 40) && res.SpecialInfo == R[48] && res.RelayState == R[49] && res.InputState == R[50] && (res.DoorState[1] <==> R[28] == 1) && (res.DoorState[2] <==> R[29] == 1) && (res.DoorState[3] <==> R[30] == 1) && (res.DoorState[4] <==> R[31] == 1) && (res.DoorButton[1] <==> R[32] == 1) && (res.DoorButton[2] <==> R[33] == 1) && (res.DoorButton[3] <==> R[34] == 1) && (res.DoorButton[4] <==> R[35] == 1) && (wire.u32(R, 8) == 0 ==> res.Event.Index == 0 && res.Event.Type == 0 && res.Event.CardNumber == 0 && res.Event.Timestamp.abs == 0) && (wire.u32(R, 8) != 0 ==> res.Event.Index == wire.u32(R, 8) && res.Event.Type == R[12] && (res.Event.Granted <==> R[13] == 1) && res.Event.Door == R[14] && res.Event.Direction == R[15] && res.Event.CardNumber == wire.u32(R, 16) && res.Event.Reason == R[27] && wire.rdatetime(R, 20, res.Event.Timestamp.abs, res.Event.Timestamp.ns, res.Event.Timestamp.loc)) && (!wire.rsysdateOK(R, 51) ==> res.SystemDateTime.abs == 0 && res.SystemDateTime.ns == 0)
 
 // ---- GENERATED: end ----
 
